@@ -55,7 +55,7 @@ func r10_1(c *Ctx) {
 			site = s
 		}
 	}
-	eachInstr(rd, func(in ssa.Instruction) {
+	eachInstrDeep(rd, func(in ssa.Instruction) {
 		call, ok := in.(*ssa.Call)
 		if !ok || site == nil || call.Call.Value != site.Value() || len(call.Call.Args) != 1 {
 			return
@@ -110,7 +110,7 @@ func r10_1(c *Ctx) {
 		return
 	}
 	yOK := false
-	eachInstr(ip.doYield, func(in ssa.Instruction) {
+	eachInstrDeep(ip.doYield, func(in ssa.Instruction) {
 		st, ok := in.(*ssa.Store)
 		if !ok {
 			return
@@ -154,7 +154,7 @@ func r10_2(c *Ctx) {
 	name := fnLabel(fn)
 	var set, del []*ssa.Call
 	var bodyReset *ssa.Call
-	eachInstr(fn, func(in ssa.Instruction) {
+	eachInstrDeep(fn, func(in ssa.Instruction) {
 		if call, ok := isStaticCall(in, "(net/http.Header).Set"); ok {
 			if _, ok := canonicalIsLastEventID(call.Call.Args[1]); ok {
 				set = append(set, call)
@@ -252,7 +252,7 @@ func r10_3(c *Ctx) {
 		return
 	}
 	var do, reset *ssa.Call
-	eachInstr(fn, func(in ssa.Instruction) {
+	eachInstrDeep(fn, func(in ssa.Instruction) {
 		if call, ok := isStaticCall(in, "(*net/http.Client).Do"); ok {
 			do = call
 		}
@@ -282,7 +282,7 @@ func r10_4(c *Ctx) {
 		if !inSSEPackage(f) || f.Synthetic != "" {
 			continue
 		}
-		eachInstr(f, func(in ssa.Instruction) {
+		eachInstrDeep(f, func(in ssa.Instruction) {
 			if call, ok := in.(*ssa.Call); ok && call.Call.StaticCallee() == nil && !call.Call.IsInvoke() {
 				if _, ok := isFieldLoad(call.Call.Value, "http.Request", "GetBody"); ok {
 					get = call
@@ -530,7 +530,7 @@ func r10_5(c *Ctx) {
 	c.check(firstOK, fnLabel(fn)+":first-attempt", P.pos(fn.Pos()), "the first attempt returns nil without resetting", "the first attempt does not return nil")
 	// the body reset happens on the retry edge
 	var br *ssa.Call
-	eachInstr(fn, func(in ssa.Instruction) {
+	eachInstrDeep(fn, func(in ssa.Instruction) {
 		if call, ok := isModCall(in, "resetRequestBody"); ok {
 			br = call
 		}
@@ -682,7 +682,7 @@ func r13_1(c *Ctx) {
 				c.check(st >= lkR, name, P.ipos(in), "read under the lock", "a read of "+what+" does not hold Connection.mu: data race with concurrent (un)subscriptions")
 			}
 		}
-		eachInstr(fn, func(in ssa.Instruction) {
+		eachInstrDeep(fn, func(in ssa.Instruction) {
 			// field-level accesses
 			if v, ok := in.(ssa.Value); ok {
 				if o, n, base, ok := fieldSel(v); ok && o == "Connection" {
@@ -747,7 +747,7 @@ func r13_2(c *Ctx) {
 			continue
 		}
 		var ls map[ssa.Instruction]int
-		eachInstr(fn, func(in ssa.Instruction) {
+		eachInstrDeep(fn, func(in ssa.Instruction) {
 			call, ok := in.(*ssa.Call)
 			if !ok || call.Call.IsInvoke() || call.Call.StaticCallee() != nil {
 				return
@@ -789,7 +789,7 @@ func r13_3(c *Ctx) {
 			continue
 		}
 		ls := map[ssa.Instruction]int(nil)
-		eachInstr(fn, func(in ssa.Instruction) {
+		eachInstrDeep(fn, func(in ssa.Instruction) {
 			mu, ok := in.(*ssa.MapUpdate)
 			if !ok || !guardedMapValue(mu.Map) {
 				return
@@ -876,7 +876,7 @@ func r13_4(c *Ctx) {
 		}
 		var dels []*ssa.Call
 		other := ""
-		eachInstr(fn, func(in ssa.Instruction) {
+		eachInstrDeep(fn, func(in ssa.Instruction) {
 			switch x := in.(type) {
 			case *ssa.Call:
 				if b, ok := x.Call.Value.(*ssa.Builtin); ok && b.Name() == "delete" && guardedMapValue(x.Call.Args[0]) {
@@ -902,7 +902,7 @@ func r13_4(c *Ctx) {
 		}
 		// find the parent's insert: key cell and (for typed) event cell
 		var insert *ssa.MapUpdate
-		eachInstr(par, func(in ssa.Instruction) {
+		eachInstrDeep(par, func(in ssa.Instruction) {
 			if mu, ok := in.(*ssa.MapUpdate); ok && guardedMapValue(mu.Map) && typeIs(mu.Value.Type(), "sse", "EventCallback") {
 				insert = mu
 			}
@@ -1096,7 +1096,7 @@ func r13_5(c *Ctx) {
 		return ok && cellHoldsOnly(rootAddr(base), ev)
 	}
 	nTyped, nAll := 0, 0
-	eachInstr(fn, func(in ssa.Instruction) {
+	eachInstrDeep(fn, func(in ssa.Instruction) {
 		call, ok := in.(*ssa.Call)
 		if !ok || call.Call.IsInvoke() || call.Call.StaticCallee() != nil {
 			return
@@ -1129,7 +1129,7 @@ func r13_5(c *Ctx) {
 	for _, ret := range returnsOf(fn) {
 		// a return not dominated by both ranges' exits must be guarded by (len+len == 0)
 		rangesBefore := 0
-		eachInstr(fn, func(in ssa.Instruction) {
+		eachInstrDeep(fn, func(in ssa.Instruction) {
 			if r, ok := in.(*ssa.Range); ok && guardedMapValue(r.X) && instrDominates(r, ret) {
 				rangesBefore++
 			}
